@@ -207,7 +207,8 @@ def pool_timeout_scenarios(draw):
         waiters.append({"p": draw(st.sampled_from([0, 0, 0.5, 1.0, 2.5, 7.0, None])), "host": draw(st.sampled_from(["a.test", "a.test", "b.test"]))})
     return {"kind": draw(st.sampled_from(["direct-h1", "direct-h1", "direct-tls-h1", "forward", "tunnel-h1", "socks-h1"])), "holders": n_hold, "waiters": waiters,
             "advances": draw(st.lists(st.sampled_from([0.3, 0.7, 1.1, 2.3, 5.0]), max_size=6)),
-            "choices": draw(st.lists(st.integers(0, 9), max_size=60)), "runtime": draw(st.sampled_from(["asyncio", "trio"]))}
+            "choices": draw(st.lists(st.integers(0, 9), max_size=60)), "runtime": draw(st.sampled_from(["asyncio", "trio"])),
+            "late": draw(st.sampled_from([[], [], [1], [0, 1], [0, 0, 1], [1, 0, 0, 0]]))}
 
 
 def execute_pool_timeout(sc) -> Outcome:
@@ -231,7 +232,12 @@ def execute_pool_timeout(sc) -> Outcome:
 
     from ..trio_run import make_run
 
-    r = make_run(sc.get("runtime"))(world, pool_cfg, callers, choices=sc["choices"], advances=sc["advances"], epilogue=epilogue)
+    async def epilogue(r):  # noqa: F811 - also records what the pool still holds once every caller is done
+        final["repr"] = repr(r.pool)
+        final["conns"] = [(c.info(), c.is_idle(), c.is_closed(), c.has_expired()) for c in r.pool.connections]
+        await r.pool.aclose()
+
+    r = make_run(sc.get("runtime"))(world, pool_cfg, callers, choices=sc["choices"], advances=sc["advances"], epilogue=epilogue, late=sc.get("late", ()))
     r.run()
     vio = []
     what = ("[trio] " if sc.get("runtime") == "trio" else "") + f"{sc['kind']} max_connections={sc['holders']} waiters={[w['p'] for w in sc['waiters']]}"
@@ -274,8 +280,15 @@ def execute_pool_timeout(sc) -> Outcome:
         vio.append(V(P, "deadlock", f"{what}: {r.deadlock}", conn=sc["kind"]))
     if final.get("repr") and "Requests: 0 active, 0 queued" not in final["repr"] and r.deadlock is None:
         vio.append(V(P, "request-not-forgotten", f"{what}: every caller has returned but the pool reports {final['repr']}", conn=sc["kind"]))
+    if r.deadlock is None:
+        for info, idle, closed, expired in final.get("conns", []):
+            if not (idle or closed or expired):
+                vio.append(V(P, "request-not-forgotten", f"{what}: every caller has returned but the pool keeps a connection that is neither idle, closed nor expired: "
+                             f"{info!r} (pool {final.get('repr')}) - a waiter that raised PoolTimeout had been given it", conn=sc["kind"], state="stuck-connection"))
     if any(w["p"] == 0 for w in sc["waiters"]):
         tags.append("zero-pool-timeout")
+    if any(x[1] == "late-loop" for x in r.log):
+        tags.append("late-loop")
     nontrivial = "pool-timeout" in tags or waited
     return Outcome(vio[:5], sorted(set(tags)), nontrivial, info={"outcomes": [(c.results[0].get("status") or c.results[0]["exc"]["name"]) if c.results else None for c in callers],
                                                                  "final": final.get("repr")})
@@ -289,7 +302,10 @@ PROP.rule += (" pool-timeout layer: 1-2 holders keep every connection of the poo
 
 from .real import layer_for as _real_layer  # noqa: E402
 
-PROP.layers.append(_real_layer("C16", {"quick": 240, "thorough": 5000}))
+from .real import make_execute as _real_execute, stall_matrix as _stall_matrix  # noqa: E402
+
+PROP.layers.append(Layer("real-stall-matrix", cases=_stall_matrix, execute=_real_execute("C16")))
+PROP.layers.append(_real_layer("C16", {"quick": 240, "thorough": 8000}))
 PROP.rule += (" real-backends layer: the same timeouts through httpcore's own sync / anyio / trio backends over loopback sockets against a peer that goes "
               "silent (after N response bytes, during the TLS handshake, never completing the TCP connect, or no longer reading a 3 MB upload): the request "
               "must fail with the matching ReadTimeout / ConnectTimeout / WriteTimeout, never before the configured 0.06 s.")
